@@ -107,6 +107,19 @@ theorem C18_trained (lvl : Nat → Nat → Nat → Nat) (alphabetSize ngram minL
   · rw [hsim.enumFrom, h1 (max N1 N2) (Nat.le_max_left _ _)]; exact h2
   · rw [hsim.enumFrom, h1 (max N1 N2) (Nat.le_max_left _ _)]; exact h3
 
+/-- `C18_trained` for every value the logarithm of the smoothing could return (`lvlOf raw 10`: only the clamp of `_calc_level`,
+regenerated from the source in `C11_calc_level_clamps`, matters): no hypothesis besides the n-gram size ≥ 2 -/
+theorem C18_trained_any_smoothing (raw : Nat → Nat → Nat → Int) (alphabetSize ngram minLength maxLength : Nat)
+    (hn : 2 ≤ ngram) (pws : List Str) (maxKeyspace fuel first : Nat) (level : Nat) (p : Rat) :
+    let t := trainTTables (lvlOf raw 10) alphabetSize ngram minLength maxLength 10 pws
+    (level, p) ∈ omenProbs ratNOps (t.calcKeyspace maxKeyspace fuel first) (t.levelsCount pws) pws.length →
+    ∃ tb, t.loadTables = some tb ∧ ∀ s0, tb.start = some s0 →
+      ∃ N, (∀ fuel', N ≤ fuel' → tb.enumFrom level fuel' s0 = tb.enumFrom level N s0) ∧
+        (tb.enumFrom level N s0).length = t.levelKeyspace level ∧ (tb.enumFrom level N s0).length ≠ 0 ∧
+        p = ((pws.countP (fun pw => decide (pw ∈ tb.enumFrom level N s0)) : Nat) : Rat) / (pws.length : Rat)
+              / ((tb.enumFrom level N s0).length : Rat) :=
+  C18_trained (lvlOf raw 10) alphabetSize ngram minLength maxLength 10 hn (lvlOf_le raw 10) pws maxKeyspace fuel first level p
+
 /-- no counted level is dropped for an empty keyspace: a level at which a training password lies has a
 non-empty keyspace, so if `calc_omen_keyspace` lists it, it receives a probability -/
 theorem C18_counted_level_listed (t : TTables) (hwf : t.WF) (s0 : CState) (hs : t.toTables.start = some s0)
